@@ -612,7 +612,6 @@ struct VarSubject {
         e.observe(eo);
         std::uint64_t h = vf::mix(vf::mix(nh, vf::mix(i, (std::uint64_t)(st + 1000))), vf::mix(op, vf::mix(vf::mix(a.j, a.v), vf::mix(a.q, vf::mix(a.z, a.y)))));
         vf::cover(label(op), h, true);
-        if (vf::want_sample(label(op))) { vf::sample(label(op), "state=(index %zu, value %lld) to-index=%d v=%d q=%d w=%d u=%d", i, st, a.j, a.v, a.q, a.z, a.y); }
         if (!compare(eo, so)) { e.rebuild(mi(), mv()); }
     }
 };
@@ -649,7 +648,8 @@ void run_case(vf::Case& c)
     if (c.enumerated) {
         bool th = c.tier == vf::Tier::thorough;
         if (c.index == 0) { check_traits(); }
-        enumerate_first_op<VarSubject>((unsigned)c.index, th ? 3 : 2, th ? 2 : 3);
+        enumerate_first_op<VarSubject>((unsigned)c.index, 2, 3);
+        if (th) { enumerate_first_op<VarSubject>((unsigned)c.index, 3, 2); } // deeper, two payload values
     } else {
         random_history<VarSubject>(c.rng, 50, 3);
     }
